@@ -2,9 +2,11 @@
 mod c01;
 mod c04;
 mod c08;
+mod c12;
 mod c15;
 mod e2;
 mod fam;
+mod histpub;
 
 use refsem::evidence::{machinery, parse_args};
 
@@ -17,6 +19,7 @@ fn main() {
         "C05" => c04::run("C05", tier),
         "C07" => c04::run("C07", tier),
         "C08" => c08::run(tier),
+        "C12" => c12::run(tier),
         "C15" => c15::run(tier),
         p => machinery(&format!("pubcheck does not know property {p}")),
     }
